@@ -27,11 +27,22 @@ class KInst:
                     D=None if self.X is not None else [list(map(float, r)) for r in self.D])
 
 
-def gen_kinst(rng, nmin=2, nmax=10, m=0, labelled=False, kinds=("feat", "lattice", "dup", "mat", "jitter", "outlier", "micro", "mat")):
+def gen_kinst(rng, nmin=2, nmax=10, m=0, labelled=False, kinds=("feat", "lattice", "dup", "mat", "jitter", "outlier", "micro", "mat", "asym")):
     kind = rng.choice(kinds)
     n = rng.randint(nmin, nmax)
     N = n + m
     labels = gen_labels(rng, n, 3) if labelled and n >= 2 else None
+    if kind == "asym":
+        # directed dissimilarities shipped by the library: d(a, b) != d(b, a); every arc of the k-NN graph is weighed FROM its owner
+        metric = rng.choice(["neyman", "pearson", "kullback_leibler", "k_divergence"])
+        dim = rng.randint(2, 4)
+        X = [[rng.uniform(0.05, 5) for _ in range(dim)] for _ in range(N)]
+        if metric in ("kullback_leibler", "k_divergence"):
+            X = [[v / sum(r) for v in r] for r in X]
+        D = metric_matrix(metric, X)
+        if all(v == v for r in D for v in r):
+            return KInst("asym", X, D, n, m, metric, labels)
+        kind = "feat"
     if kind == "micro" and n >= 4:
         # a few samples 1e-22 .. 1e-30 apart (close, not duplicates) next to ordinary samples about 1 apart: arc weights, cuts
         # and density terms that are positive but far below EPSILON = 1e-20
